@@ -12,8 +12,9 @@ import (
 
 func init() {
 	core.Register(&core.Prop{
-		ID:    "C10",
-		Level: "exploration",
+		ID:          "C10",
+		Level:       "exploration",
+		CaseTimeout: 45e9, // a case of this check takes milliseconds; one that does not end is cut after 45 s
 		Rule: "seeded multi-replica histories; at a random point (states with tombstones, superseded nested containers, updated array slots, lost-LWW values) replica R exports (meta, snapshot) which is imported into a fresh instance R' the way the SDK initialises one (SetMetaAndSnapshot + ResetTransaction); R and R' then receive the same continuation (local calls, failing and committed transactions, remote deliveries that address old tombstones and containers) and are compared after every step: return values, ToJSON, sizes, element reads, emitted operation ids and bodies; up to four more times during the continuation, and at the end, both are exported again and the snapshots compared in canonical form (an export that lags behind the state shows here) and the pair continues from a fresh restore of the later export, and export(import(export(R))) is compared with export(R); " +
 			"non-trivial = the exported state held a tombstone or a superseded container and the continuation delivered >=1 remote operation and >=3 local calls; distinct = hash of the step script",
 		Assumptions: []string{
